@@ -270,7 +270,7 @@ theorem run_sim (D : Int) (p : Prog) : ∀ (s : TS), NoCatch p → Flat p → St
       · have : cs.contains Exc.tce = false := by simpa using hp.2.2.2
         simp only [this]
         exact ⟨by simp [IsCX], h2, h3, h4, h5⟩
-  | group ms body _ => intro s _ hf; exact absurd hf id
+  | group anyp ms body _ => intro s _ hf; exact absurd hf id
   | block ig rel t body ih =>
     intro s hp hf hst hk hj hc
     simp only [run]
@@ -411,7 +411,7 @@ def Instant : Prog → Prop
   | .seq a b => Instant a ∧ Instant b
   | .block _ _ _ b => Instant b
   | .tryCatch b _ h => Instant b ∧ Instant h
-  | .group _ _ => False
+  | .group _ _ _ => False
 
 theorem instant_run (p : Prog) : ∀ (s : TS), Instant p →
     (run true p s).2.1.now = s.now ∧
@@ -421,7 +421,7 @@ theorem instant_run (p : Prog) : ∀ (s : TS), Instant p →
   | skip => intro s _; simp [run]
   | sleep d => intro s h; exact absurd h id
   | raise e => intro s _; simp [run]
-  | group ms b _ => intro s h; exact absurd h id
+  | group anyp ms b _ => intro s h; exact absurd h id
   | seq a b iha ihb =>
     intro s h
     have ha := iha s h.1
